@@ -27,7 +27,7 @@ def _term_time(a, n):
     return (ts[-1] if ts else 210) + a.tg
 
 
-@harness(instances=lambda tier: [{"N": n, "exc": e, "falsy": f} for n in (0, 1, 2) for e in ("none", "resource", "observable") for f in (0, 1)],
+@harness(instances=lambda tier: [{"N": n, "exc": e, "falsy": f} for n in ((0, 1, 2) if tier == "quick" else (0, 1, 2, 3)) for e in ("none", "resource", "observable") for f in (0, 1)],
          v=I(0, 1, n=lambda i: i["N"]), g=I(0, 2, n=lambda i: i["N"]), tg=I(0, 2), term=I(0, 2), D=I(201, 220), timeout=(90, 600))
 def h_using(a, inst):
     n = inst["N"]
@@ -70,7 +70,7 @@ def _final(form):
     return ops.finally_action
 
 
-@harness(instances=lambda tier: [{"N": n, "src": s, "form": f} for n in (0, 1, 2) for s in ("hot", "raising_teardown", "sync")
+@harness(instances=lambda tier: [{"N": n, "src": s, "form": f} for n in ((0, 1, 2) if tier == "quick" else (0, 1, 2, 3)) for s in ("hot", "raising_teardown", "sync")
                                  for f in ("finally_action", "do_finally")],
          v=I(0, 1, n=lambda i: i["N"]), g=I(0, 2, n=lambda i: i["N"]), tg=I(0, 2), term=I(0, 2), D=I(201, 220), timeout=(90, 600))
 def h_finally(a, inst):
@@ -211,7 +211,7 @@ ENCODED = ["reactivex/observable/using.py", "reactivex/operators/_finallyaction.
 BOUNDS = {"quick": "inner timelines of 0..2 (do_action: 0..3) elements, gaps in [0,2], terminal none/completed/error, dispose instant in "
                    "[201,220] (before, at and after the termination instant), exception in the resource factory / observable factory / "
                    "a do_action callback at its k-th call (k in 1..5), truthy and falsy resources, an upstream whose teardown raises",
-          "thorough": "same with the thorough budget"}
+          "thorough": "using / finally_action / do_finally over sources with up to 3 elements; the rest as in the quick tier"}
 ASSUMES = ["Tick/Span time stub", "do_finally is imported from reactivex.operators._do (it is not re-exported); both forms are checked"]
 MANIFEST = {
     "text": "Bounded symbolic model checking: timelines, dispose instant and exception positions are solver variables; the resource's "
